@@ -250,6 +250,84 @@ def light_any(h):
     return light1(h) if getattr(h, "ndim", 0) == 1 else lightn(h)
 
 
+# ---- element types of the containers (stream:eltype): the same VALUES carried in a narrow type
+ENABLE_ELTYPE = True        # the whole stream:eltype
+NP_FLOATS = ("float32", "float16")
+NP_INTS = ("int8", "int16", "int32", "int64", "uint8", "uint16", "uint32", "uint64")
+PY_TYPES = ("pyint", "pyfloat", "pymixed")
+ELTYPES = ("float32", "float32", "float32", "float16") + NP_INTS + ("bool",) + PY_TYPES + ("float32", "float32", "float16", "float32")
+# What the unchanged library does and the property does not pin (recorded in the tags, not compared):
+#   * a polars Boolean Series is refused as data ("must be int-like or float-like") while a numpy / pandas bool array is taken
+#   * uint64 weights: h1 gives int64 contents, Histogram1D.fill_n float64 contents (int64 + uint64 promotes to float64), a list mixing
+#     np.uint64 scalars and python ints is a float64 array for numpy itself
+#   * narrow weights keep their width in some carriers (float32 -> float32 contents, pandas / polars int16 -> int16) and not in others
+#     (numpy int8 / uint8 -> int64): only the KIND (integer / floating) of the dtype is compared for narrow weights
+POLARS_TAKES_BOOL_DATA = False
+#   * int8 weights (numpy array) give int8 errors2: h1(np.zeros(8), [0, 1], weights=np.full(8, 5, dtype="int8")) raises OverflowError
+#     ("Python integer 200 out of bounds for int8") as soon as the sum of squared weights of one bin passes 127, where uint8 / int16 /
+#     int64 weights of the same values are taken (contents 40, errors2 200). Possibly a defect of the library; kept out of the
+#     generator (int8 weights are 0..2, so that the squares of a whole data set stay below 128) until it is triaged
+ENABLE_INT8_WEIGHTS_OVERFLOW = False
+PIN_UINT64_WEIGHTS_KIND = False
+ELTYPE_WTYPES = (None, "int64", "float64", "float32", "float32", "float16", "int8", "int16", "int32", "uint8", "uint16", "uint32",
+                 "uint64", "pyint", "pyfloat", "pymixed")
+ELTYPE_METHODS = ("int", "int", "int", "explicit", "explicit", "fixed_width", "pretty", "quantile", "sturges", "sqrt", "rice", "doane",
+                  "scott", "default", "integer", "human", "int_range")
+PANDAS_NULLABLE = {"float32": "Float32", "int8": "Int8", "int16": "Int16", "int32": "Int32", "int64": "Int64", "uint8": "UInt8",
+                   "uint16": "UInt16", "uint32": "UInt32", "uint64": "UInt64", "bool": "boolean", "pyint": "Int64", "pyfloat": "Float64"}
+
+
+def is_integer_type(t):
+    return t in NP_INTS or t in ("bool", "pyint")
+
+
+def eltype_python(values, t):
+    """the values (floats, None = NaN) as the python objects of a 'py*' type"""
+    out = []
+    for i, v in enumerate(values):
+        if v is None:
+            out.append(float("nan"))
+        elif t == "pyint":
+            out.append(int(v))
+        elif t == "pyfloat":
+            out.append(float(v))
+        elif float(v) == int(v) and i % 2 == 0:
+            out.append(bool(v) if v in (0, 1) and i % 4 == 0 else int(v))
+        else:
+            out.append(float(v))
+    return out
+
+
+def eltype_array(values, t):
+    """the values in an array of the narrow type (python types: what numpy makes of the list); the array holds EXACTLY the values"""
+    if t in PY_TYPES:
+        a = np.asarray(eltype_python(values, t))
+    else:
+        a = np.array([np.nan if v is None else v for v in values], dtype=float).astype(t)
+    back = [None if (a.dtype.kind == "f" and np.isnan(x)) else float(x) for x in a]
+    if back != [None if v is None else float(v) for v in values]:
+        raise AssertionError(f"harness: {values} are not representable as {t}")
+    return a
+
+
+def estats(h):
+    st = h.statistics
+    return {k: nrs(getattr(st, k)) for k in ("sum", "sum2", "weight", "min", "max", "median")}
+
+
+def elight1(h):
+    d = light1(h)
+    d["stats"] = estats(h)
+    d["ire"] = bool(h.binning.includes_right_edge)
+    return d
+
+
+def elightn(h):
+    d = lightn(h)
+    d["ire"] = [bool(b.includes_right_edge) for b in h.binnings]
+    return d
+
+
 def factor_pair(n):
     """(a, b) with a * b == n and a, b > 1, or None"""
     for a in range(2, n):
@@ -266,7 +344,10 @@ class C17:
     # ... then the 'nonfinite' stream, then the 'wshape' stream (a further index cycles through the three in these proportions)
     N_NONFINITE = {"quick": 24, "thorough": 320, "search": 24}
     N_WSHAPE = {"quick": 16, "thorough": 220, "search": 16}
-    _LATE = (("labelled", N_LABELLED, ENABLE_LABELLED), ("nonfinite", N_NONFINITE, ENABLE_NONFINITE), ("wshape", N_WSHAPE, ENABLE_WSHAPE))
+    # ... then the 'eltype' stream (element types of the containers)
+    N_ELTYPE = {"quick": 34, "thorough": 450, "search": 24}
+    _LATE = (("labelled", N_LABELLED, ENABLE_LABELLED), ("nonfinite", N_NONFINITE, ENABLE_NONFINITE), ("wshape", N_WSHAPE, ENABLE_WSHAPE),
+             ("eltype", N_ELTYPE, ENABLE_ELTYPE))
     N_QUICK = N_BASE["quick"] + sum(c["quick"] for _, c, on in _LATE if on)
     N_THOROUGH = N_BASE["thorough"] + sum(c["thorough"] for _, c, on in _LATE if on)
     N_SEARCH = N_BASE["search"] + sum(c["search"] for _, c, on in _LATE if on)
@@ -317,7 +398,20 @@ class C17:
             "factorisation (a, b), flat / transposed for the table, 0-d for one value; NaN or not, dropna on / off: weights shaped like the "
             "data are accepted (exact positional sums); with dropna=True every other shape is refused; with dropna=False (where the "
             "unchanged library flattens: PIN_REFUSAL_WITHOUT_DROPNA) an accepted shape with one non-unit axis gives the histogram of the "
-            "proper weights; for each shape every carrier is refused / accepted as the numpy call is, with the same histogram. "
+            "proper weights; for each shape every carrier is refused / accepted as the numpy call is, with the same histogram; then 34 / "
+            "450 cases of element types (stream:eltype): n = 4..24 values x (and a second column y) carried as float32 / float16 / int8.."
+            "int64 / uint8..uint64 / bool numpy arrays (contiguous and strided), lists / tuples / iterators / generators of numpy scalars "
+            "and of python ints / floats / a mixture, pandas Series and DataFrame columns (numpy and nullable dtypes) and accessors, polars "
+            "Series / frames and namespaces, dask arrays, (name, values) -- as data, as weights, and as both -- through h1, "
+            "Histogram1D.fill_n (static and adaptive), h2 / h and the frame accessors, with bins derived from the data (integer count "
+            "3..11 with / without range, fixed_width, pretty, human, quantile, integer, sturges / sqrt / rice / doane / scott, default) "
+            "or explicit (decimal or dyadic edges); the values are exactly representable in the narrow type: multiples of 1/8, small "
+            "integers, and (float32 / float16) numbers one ulp of the narrow type beside / on the nearest narrow neighbour of a bin "
+            "edge: every carrier = the call on the float64 array of the exact values (bit-identical bins, contents, errors2, underflow "
+            "/ overflow / missed, dtype, statistics sum / sum2 / weight / min / max / median); narrow WEIGHTS = the int64 / float64 "
+            "weights call in bins, contents, errors2, missed, statistics and the kind (integer / floating) of the dtype; and the "
+            "float64 call = each value counted, with its weight, in the bin the exact comparison with the returned edges gives, "
+            "sum / sum2 / weight exact Fractions on dyadic data. "
             "non-trivial = at least one entry inside a bin; distinct = case hash")
     EXTRA_TRUST = ["pandas, polars, dask and xarray conversions are exercised, not modelled"]
     ASSUMPTIONS = ["the reference is physt's own result on the equivalent numpy array, itself tied to the model by C01 / C02"]
@@ -689,8 +783,138 @@ class C17:
             t.append("wshape:nan")
         return t + [f"open:{o}" for o in case.get("open", [])]
 
+    # ---- element types of the containers
+    def gen_eltype(self, rng, slot=None):
+        """n values x (and a second column y) exactly representable in a narrow element type, weights in a narrow type or none, bins
+        derived from the data by a method or explicit. slot: the first len(ELTYPES) cases take the element types in turn with an
+        integer bin count (the first six: float32 / float16 data on ten bins), the next take the weight types in turn"""
+        ctype = rng.choice(ELTYPES)
+        wtype = rng.choice(ELTYPE_WTYPES)
+        method = rng.choice(ELTYPE_METHODS)
+        if slot is not None and slot < len(ELTYPES):
+            ctype = ELTYPES[slot]
+            method = rng.choice(["int", "int", "int_range", "explicit", "default"])
+        elif slot is not None and slot < len(ELTYPES) + len(ELTYPE_WTYPES):
+            wtype = ELTYPE_WTYPES[slot - len(ELTYPES)]
+        n = rng.choice([4, 6, 9, 12, 16, 24])
+        floating = ctype in NP_FLOATS or ctype in ("pyfloat", "pymixed")
+        near = ctype in NP_FLOATS and rng.random() < 0.6
+        narrow = np.dtype(ctype).type if ctype in NP_FLOATS else None
+
+        def exact_value():
+            if ctype == "bool":
+                return float(rng.randint(0, 1))
+            if ctype.startswith("uint"):
+                return float(rng.randint(0, 12))
+            if not floating:
+                return float(rng.randint(-6, 6))
+            return rng.randint(-32, 32) / 8
+
+        # the range of the data: two distinct exact values, always present
+        lo, hi = sorted([exact_value(), exact_value()])
+        if lo == hi:
+            lo, hi = (0.0, 1.0) if ctype == "bool" else (lo, lo + rng.choice([1.0, 2.0, 3.0]))
+        k = rng.choice([3, 5, 6, 7, 9, 10, 10, 11])
+        binning, spec = None, {"m": method}
+        if method in ("int", "int_range"):
+            spec = {"m": method, "k": k}
+            if method == "int_range":
+                spec["range"] = [lo - rng.choice([0, 0.5, 1.0]), hi + rng.choice([0, 0.25, 1.0])]
+            a, b = spec.get("range", [lo, hi])
+            edges = [float(e) for e in np.linspace(a, b, k + 1)]
+        elif method == "explicit":
+            if rng.random() < 0.6:
+                step = rng.choice([0.1, 0.2, 0.3, 0.7, 1.1])
+                edges = [lo + i * step for i in range(rng.randint(2, 8))]
+            else:
+                edges = sorted({lo + i / 8 * rng.choice([1, 2, 4]) for i in range(rng.randint(2, 8))})
+            if len(edges) < 2:
+                edges = [lo, lo + 1.0]
+            binning = [gen1.binning_json([[edges[i], edges[i + 1]] for i in range(len(edges) - 1)],
+                                         form=rng.choice(["static_obj", "edges", "edge_list"]))]
+        else:
+            if method == "fixed_width":
+                spec["bin_width"] = rng.choice([0.5, 0.25, 0.1, 0.3, 1.0, 0.7])
+                w = spec["bin_width"]
+                edges = [float(e) for e in np.arange(np.floor(lo / w), np.ceil(hi / w) + 1) * w]
+            elif method == "quantile":
+                spec["q"] = rng.choice([[0, 0.5, 1], [0, 0.25, 0.5, 0.75, 1], [0, 0.1, 0.3, 0.9, 1], [0.1, 0.5, 0.8]])
+                edges = [float(e) for e in np.linspace(lo, hi, 8)]
+            else:
+                if method in ("pretty", "human") and rng.random() < 0.5:
+                    spec["bin_count"] = rng.choice([3, 5, 8, 12])
+                edges = [float(e) for e in np.linspace(lo, hi, rng.choice([4, 8, 11]))]
+
+        def near_value():
+            e = rng.choice(edges)
+            c = narrow(e)
+            with np.errstate(all="ignore"):
+                v = rng.choice([c, np.nextafter(c, narrow(np.inf)), np.nextafter(c, narrow(-np.inf))])
+            v = float(v)
+            # bins derived from the data: the range stays [lo, hi]
+            if method != "explicit" and not lo <= v <= hi:
+                return float(c) if lo <= float(c) <= hi else exact_value_in()
+            return v if np.isfinite(v) else exact_value_in()
+
+        def exact_value_in():
+            for _ in range(20):
+                v = exact_value()
+                if lo <= v <= hi:
+                    return v
+            return lo
+
+        def value():
+            if near and rng.random() < 0.7:
+                return near_value()
+            if method == "explicit" and rng.random() < 0.25:
+                return exact_value()                # may fall outside the bins
+            return exact_value_in()
+
+        xs = [lo, hi] + [value() for _ in range(n - 2)]
+        rng.shuffle(xs)
+        if floating and rng.random() < 0.2:
+            xs[rng.randrange(n)] = None if sum(v is not None for v in xs) > 3 else xs[0]
+            if {lo, hi} - set(xs):
+                xs = [lo, hi] + xs[2:] if None in xs[2:] else xs
+                for must in (lo, hi):
+                    if must not in xs:
+                        xs[[i for i, v in enumerate(xs) if v is not None][0]] = must
+        ys = [exact_value() for _ in range(n)]
+        if len(set(ys)) < 2:
+            ys[0] = ys[1] + 1.0 if ctype != "bool" else 1.0 - ys[1]
+        if wtype is None:
+            ws = None
+        elif is_integer_type(wtype) or wtype == "float16":
+            ws = [float(rng.randint(0, 5 if wtype != "int8" or ENABLE_INT8_WEIGHTS_OVERFLOW else 2)) for _ in range(n)]
+        else:
+            ws = [rng.randint(0, 24) / 4 for _ in range(n)]
+        if ws is not None and not any(ws):
+            ws[0] = 1.0
+        if ws is not None and is_integer_type(wtype):
+            ws = [int(w) for w in ws]
+        opened = open_triggers()
+        case = {"kind": "eltype", "d": 1, "binning": binning, "spec": spec, "ctype": ctype, "wtype": wtype,
+                "data": [[v] for v in xs], "y": ys, "weights": ws,
+                "wkind": None if ws is None else ("int64" if is_integer_type(wtype) else "float64"),
+                "k2": rng.choice([2, 3, 5, 7, 10]), "names": ["col0"], "dropna": True,
+                "extra": {"chunk": rng.choice([1, 2, 3, 7, n])}, "open": opened}
+        case["tags"] = self._eltype_tags(case)
+        return case
+
+    @staticmethod
+    def _eltype_tags(case):
+        xs = [r[0] for r in case["data"] if r[0] is not None]
+        dyadic = all(float(v * 8) == int(v * 8) for v in xs)
+        t = ["d:1", "kind:eltype", "stream:eltype", f"eltype:data:{case['ctype']}", f"eltype:weights:{case['wtype']}",
+             f"eltype:bins:{case['spec']['m']}", "eltype:values:dyadic" if dyadic else "eltype:values:narrow_ulp_beside_edge"]
+        if any(r[0] is None for r in case["data"]):
+            t.append("eltype:nan")
+        return t + [f"open:{o}" for o in case.get("open", [])]
+
     # ------------------------------------------------------------------ the implementation
     def run_impl(self, case):
+        if case["kind"] == "eltype":
+            return self.run_eltype(case)
         if case["kind"] == "nonfinite":
             return self.run_nonfinite(case)
         if case["kind"] == "wshape":
@@ -2043,11 +2267,167 @@ class C17:
             out["touched"] = [f"the weights hold {ws.tolist()} after the calls"[:300]]
         return {"outs": out, "log": log, "why": why}
 
+    def run_eltype(self, case):
+        """every carrier of the narrow element type against the call on the float64 array of the same values"""
+        import dask.array as da
+        import pandas as pd
+        import polars as pl
+        from physt import h, h1, h2
+        import physt.compat.pandas  # noqa: F401
+        import physt.compat.polars  # noqa: F401
+        ctype, wtype, spec = case["ctype"], case["wtype"], case["spec"]
+        xs = [r[0] for r in case["data"]]
+        ys = case["y"]
+        n = len(xs)
+        x64 = np.array([np.nan if v is None else v for v in xs], dtype=np.float64)
+        y64 = np.array(ys, dtype=np.float64)
+        w64 = None if case["weights"] is None else np.array(case["weights"], dtype=case["wkind"])
+        chunk = max(1, min(case["extra"]["chunk"], n))
+        out = {"results": {}, "refusals": {}, "pairs": {}, "outcomes": {}}
+        log = []
+
+        def bins1():
+            """(bins argument, keyword arguments) of the 1-D calls, made afresh for every call"""
+            m = spec["m"]
+            if m == "explicit":
+                return impl1.mk_binning(case["binning"][0]), {}
+            if m == "int":
+                return spec["k"], {}
+            if m == "int_range":
+                return spec["k"], {"range": tuple(spec["range"])}
+            if m == "default":
+                return None, {}
+            return m, {k: v for k, v in spec.items() if k != "m"}
+
+        def bins2():
+            if spec["m"] == "explicit":
+                return [impl1.mk_binning(case["binning"][0]), case["k2"]]
+            if spec["m"] in ("int", "int_range"):
+                return [spec["k"], case["k2"]]
+            return case["k2"]
+
+        def run(name, f, snap):
+            try:
+                with np.errstate(all="ignore"):
+                    return snap(f())
+            except Exception as e:
+                log.append(f"{name}: {type(e).__name__}: {e}"[:160])
+                return "REFUSED"
+
+        def call1(data, w):
+            b, kw = bins1()
+            return h1(data, b, weights=w, **kw)
+
+        def data_carriers(values, t, name):
+            """(label, () -> container) of every carrier of the values in element type t; containers are built afresh"""
+            a = eltype_array(values, t)
+            py = eltype_python(values, t) if t in PY_TYPES else a.tolist()
+            cs = [("numpy", lambda: a.copy()), ("numpy_strided", lambda: np.repeat(a, 2)[::2]), ("list_python", lambda: list(py)),
+                  ("tuple_python", lambda: tuple(py)), ("iterator_python", lambda: iter(list(py))),
+                  ("generator_python", lambda: (v for v in py))]
+            if t not in PY_TYPES:
+                cs += [("list_scalars", lambda: list(a)), ("tuple_scalars", lambda: tuple(a)), ("iterator_scalars", lambda: iter(a)),
+                       ("generator_scalars", lambda: (v for v in a)),
+                       ("list_mixed", lambda: [v if i % 2 else p for i, (v, p) in enumerate(zip(a, py))])]
+            cs += [("pandas_series", lambda: pd.Series(a.copy(), name=name)),
+                   ("pandas_frame_column", lambda: pd.DataFrame({name: a.copy(), "other": np.arange(len(a))})[name]),
+                   ("dask", lambda: da.from_array(a.copy(), chunks=chunk))]
+            if t in PANDAS_NULLABLE and t != "pymixed":
+                cs.append(("pandas_nullable", lambda: pd.Series(a.copy(), name=name).astype(PANDAS_NULLABLE[t])))
+            if t not in ("float16", "pymixed") and (t != "bool" or POLARS_TAKES_BOOL_DATA):
+                cs.append(("polars_series", lambda: pl.Series(name, a.copy())))
+            return a, cs
+
+        # ---- the reference: the float64 array of the exact values, weights int64 / float64
+        ref = run("array", lambda: call1(x64.copy(), w64), elight1)
+        out["results"]["array"] = ref
+        ref_now = ref if w64 is None else run("array_noweights", lambda: call1(x64.copy(), None), elight1)
+        xa, xcs = data_carriers(xs, ctype, "col0")
+
+        def P(name, f, r, snap, weights_only=False):
+            out["pairs"][name] = {"got": run(name, f, snap), "ref": r, "names": None, "must": True, "wnarrow": weights_only}
+
+        wcs = []
+        if w64 is not None:
+            wa, wcs = data_carriers(case["weights"], wtype, "w")
+            wcs = [(l, mk) for l, mk in wcs if "iterator" not in l and "generator" not in l]       # an iterator of weights: not the property's
+        # (1) data in the narrow type, weights int64 / float64 (or none)
+        for label, mk in xcs:
+            P(f"eltype_data_{label}", lambda mk=mk: call1(mk(), w64), ref, elight1)
+        P("eltype_data_name_values", lambda: call1(("some name", xa.copy()), w64), ref, elight1)
+        P("eltype_data_pandas_accessor", lambda: pd.Series(xa.copy(), name="col0").physt.h1(bins1()[0], weights=w64, **bins1()[1]), ref, elight1)
+        P("eltype_data_pandas_frame_accessor", lambda: pd.DataFrame({"col0": xa.copy(), "o": np.arange(n)}).physt.h1("col0", bins1()[0], weights=w64, **bins1()[1]),
+          ref, elight1)
+        polars_ok = ctype not in ("float16", "pymixed") and (ctype != "bool" or POLARS_TAKES_BOOL_DATA)
+        if polars_ok:
+            P("eltype_data_polars_namespace", lambda: pl.Series("col0", xa.copy()).physt.h1(bins1()[0], weights=w64, **bins1()[1]), ref, elight1)
+        # (2) weights in the narrow type, data float64; (3) both narrow, in the same kind of container
+        xmk = dict(xcs)
+        for label, mk in wcs:
+            P(f"eltype_weights_{label}", lambda mk=mk: call1(x64.copy(), mk()), ref, elight1, weights_only=True)
+            if label in xmk:
+                P(f"eltype_both_{label}", lambda mk=mk, dm=xmk[label]: call1(dm(), mk()), ref, elight1, weights_only=True)
+        # (4) fill_n: a histogram over the same bins (static: explicit bins; adaptive: fixed width) filled from the carrier
+        if spec["m"] == "explicit":
+            def filled(data, w):
+                hh = h1(x64[:0].copy(), bins1()[0])
+                hh.fill_n(data, weights=w)
+                return hh
+            fref = run("fill_n_array", lambda: filled(x64.copy(), w64), elight1)
+        else:
+            def filled(data, w):
+                hh = h1(None, "fixed_width", bin_width=spec.get("bin_width", 0.5), adaptive=True)
+                hh.fill_n(data, weights=w)
+                return hh
+            fref = run("fill_n_array", lambda: filled(x64.copy(), w64), elight1)
+        out["results"]["fill_n_array"] = fref
+        for label, mk in xcs:
+            if label in ("numpy", "numpy_strided", "list_python", "list_scalars", "tuple_scalars", "pandas_series", "polars_series", "iterator_scalars"):
+                P(f"eltype_fill_n_{label}", lambda mk=mk: filled(mk(), w64), fref, elight1)
+        for label, mk in wcs:
+            if label in ("numpy", "list_python", "pandas_series", "polars_series"):
+                P(f"eltype_fill_n_weights_{label}", lambda mk=mk: filled(x64.copy(), mk()), fref, elight1, weights_only=True)
+                if label in xmk:
+                    P(f"eltype_fill_n_both_{label}", lambda mk=mk, dm=xmk[label]: filled(dm(), mk()), fref, elight1, weights_only=True)
+        # (5) two columns: h2 / h and the frames (rows with a NaN are dropped with their weights)
+        ya, ycs = data_carriers(ys, ctype, "col1")
+        ymk = dict(ycs)
+        ref2 = run("array2", lambda: h2(x64.copy(), y64.copy(), bins2(), weights=w64), elightn)
+        out["results"]["array2"] = ref2
+        both_kind = xa.dtype == ya.dtype
+        for label in ("numpy", "numpy_strided", "list_python", "tuple_python", "list_scalars", "pandas_series", "polars_series", "dask"):
+            if label in xmk and label in ymk:
+                P(f"eltype_h2_{label}", lambda a=xmk[label], b=ymk[label]: h2(a(), b(), bins2(), weights=w64), ref2, elightn)
+        if both_kind:
+            tab = np.column_stack([xa, ya])
+            P("eltype_h_table", lambda: h(tab.copy(), bins2(), weights=w64), ref2, elightn)
+            P("eltype_h_table_fortran", lambda: h(np.asfortranarray(tab), bins2(), weights=w64), ref2, elightn)
+            P("eltype_h_nested_list", lambda: h(tab.tolist(), bins2(), weights=w64), ref2, elightn)
+            P("eltype_h_dask_table", lambda: h(da.from_array(tab.copy(), chunks=(chunk, 1)), bins2(), weights=w64), ref2, elightn)
+        frame = lambda: pd.DataFrame({"col0": xa.copy(), "col1": ya.copy()})       # noqa: E731
+        P("eltype_h_pandas_frame", lambda: h(frame(), bins2(), weights=w64), ref2, elightn)
+        P("eltype_pandas_frame_h2", lambda: frame().physt.h2("col0", "col1", bins2(), weights=w64), ref2, elightn)
+        P("eltype_pandas_frame_histogram", lambda: frame().physt.histogram(None, bins2(), weights=w64), ref2, elightn)
+        if polars_ok:
+            pframe = lambda: pl.DataFrame({"col0": xa.copy(), "col1": ya.copy()})      # noqa: E731
+            P("eltype_h_polars_frame", lambda: h(pframe(), bins2(), weights=w64), ref2, elightn)
+            P("eltype_polars_frame_namespace", lambda: pframe().physt.h(bins=bins2(), weights=w64), ref2, elightn)
+        for label, mk in wcs:
+            if label in ("numpy", "list_python", "tuple_python", "pandas_series", "polars_series", "dask"):
+                P(f"eltype_h2_weights_{label}", lambda mk=mk: h2(x64.copy(), y64.copy(), bins2(), weights=mk()), ref2, elightn, weights_only=True)
+                if label in xmk and label in ymk:
+                    P(f"eltype_h2_both_{label}", lambda mk=mk, a=xmk[label], b=ymk[label]: h2(a(), b(), bins2(), weights=mk()), ref2, elightn,
+                      weights_only=True)
+        out["ref_noweights"] = ref_now
+        return {"outs": out, "log": log, "why": {}}
+
     def model_case(self, case, io):
         """the reference call (plain numpy array) as a construction of the model; for the 'mutate' stream the array built from the
         content after the last change, for the 'nested' stream the table read row by row"""
-        if case["kind"] not in ("containers", "mutate", "nested", "labelled", "nonfinite", "wshape"):
+        if case["kind"] not in ("containers", "mutate", "nested", "labelled", "nonfinite", "wshape", "eltype"):
             return None
+        if case["kind"] == "eltype" and case["binning"] is None:
+            return None         # bins derived from the data by a method: oracle only (explicit bins go through the model)
         if case["kind"] == "nonfinite" and any(is_infinite(v) for r in case["data"] for v in r):
             return None         # the model's values are rationals: no infinities (huge finite values are modelled)
         ref = io["outs"]["results"].get("array")
@@ -2268,9 +2648,100 @@ class C17:
                     fails.append(f"axis_name: {name} has axis name(s) {gn!r}, expected {p['names']!r}")
         return fails
 
+    @staticmethod
+    def _eltype_oracle(case, o, log):
+        fails = []
+        xs = [r[0] for r in case["data"]]
+        ws = case["weights"]
+
+        def fr(v):
+            return None if v is None else Fraction(v)
+
+        def same_numbers(a, b):
+            if isinstance(a, list):
+                return len(a) == len(b) and all(same_numbers(x, y) for x, y in zip(a, b))
+            return fr(a) == fr(b)
+
+        def kind_of(dt):
+            return "floating" if np.dtype(dt).kind == "f" else "integer"
+
+        for name, p in o["pairs"].items():
+            got, ref = p["got"], p["ref"]
+            if not isinstance(ref, dict):
+                continue                    # the float64 call itself was refused (the method does not take these data)
+            what = (f"{name} [data as {case['ctype']}, weights as {case['wtype']}, bins: {case['spec']}]")
+            if got == "REFUSED":
+                why = "; ".join(l[len(name) + 2:] for l in log if l.startswith(name + ":"))[:200]
+                fails.append(f"container_refused: {what} was refused although the float64 array of the same values is accepted: {why}")
+                continue
+            nd = "missed" in ref
+            fields = ("bins", "freq", "err2", "missed", "shape") if nd else ("bins", "freq", "err2", "under", "over", "stats")
+            for f in fields:
+                if p["wnarrow"] and f in ("freq", "err2", "under", "over", "missed"):
+                    ok = same_numbers(got[f], ref[f])
+                elif p["wnarrow"] and f == "stats":
+                    ok = all(fr(got[f][k]) == fr(ref[f][k]) for k in ref[f])
+                else:
+                    ok = got[f] == ref[f]
+                if not ok:
+                    fails.append(f"eltype_differs: {what}: {f} = {got[f]}, the float64 array of exactly the same values (weights {case['wkind']}) "
+                                 f"gives {ref[f]}"[:600])
+                    break
+            else:
+                if p["wnarrow"]:
+                    if kind_of(got["dtype"]) != kind_of(ref["dtype"]) and (case["wtype"] != "uint64" or PIN_UINT64_WEIGHTS_KIND):
+                        fails.append(f"eltype_dtype: {what}: contents of dtype {got['dtype']}, the {case['wkind']} weights give {ref['dtype']}")
+                elif got["dtype"] != ref["dtype"]:
+                    fails.append(f"eltype_dtype: {what}: contents of dtype {got['dtype']}, the float64 array gives {ref['dtype']}")
+        # the float64 call itself: each value in the bin the exact comparison with the returned edges gives
+        ref = o["results"].get("array")
+        if isinstance(ref, dict):
+            edges = [(Fraction(l), Fraction(r)) for l, r in ref["bins"]]
+            nb = len(edges)
+            freq, err2 = [Fraction(0)] * nb, [Fraction(0)] * nb
+            under = over = Fraction(0)
+            s0 = s1_ = s2_ = Fraction(0)
+            for i, v in enumerate(xs):
+                if v is None:
+                    continue
+                v = Fraction(v)
+                w = Fraction(1) if ws is None else Fraction(ws[i])
+                s0, s1_, s2_ = s0 + w, s1_ + w * v, s2_ + w * v * v
+                if v < edges[0][0]:
+                    under += w
+                    continue
+                for j, (l, r) in enumerate(edges):
+                    if l <= v < r or (v == r and j == nb - 1 and ref["ire"]):
+                        freq[j] += w
+                        err2[j] += w * w
+                        break
+                else:
+                    if v >= edges[-1][1]:
+                        over += w
+            gapless = all(edges[j][1] == edges[j + 1][0] for j in range(nb - 1))
+            exp = {"freq": freq, "err2": err2}
+            if gapless:
+                exp.update({"under": under, "over": over})
+            for f, e in exp.items():
+                g = [Fraction(x) for x in ref[f]] if isinstance(e, list) else Fraction(ref[f])
+                if g != e:
+                    fails.append(f"eltype_reference: h1 of the float64 array: {f} = {ref[f]}, the values compared exactly with the returned "
+                                 f"edges give {[str(x) for x in e] if isinstance(e, list) else str(e)}"[:500])
+            vals = [v for v in xs if v is not None]
+            if all(float(v * 8) == int(v * 8) and abs(v) <= 64 for v in vals):
+                for f, e in (("weight", s0), ("sum", s1_), ("sum2", s2_)):
+                    if ref["stats"][f] is None or Fraction(ref["stats"][f]) != e:
+                        fails.append(f"eltype_statistics: h1 of the float64 array records {f} = {ref['stats'][f]}, exactly {e}")
+            want = case["wkind"] or "int64"
+            if ref["dtype"] != want:
+                fails.append(f"eltype_dtype: h1 of the float64 array with weights {case['wkind']} has contents of dtype {ref['dtype']}")
+        return fails
+
     def oracle(self, case, io):
         o = io["outs"]
         fails = []
+        if case["kind"] == "eltype":
+            return self._eltype_oracle(case, o, io["log"])[:6]
         if case["kind"] == "dask":
             self._pairs(o, io["log"], fails)
             for name, r in o["refusals"].items():
@@ -2419,6 +2890,11 @@ class C17:
         t += [f"containers:{len(forms)}"] + (["weights"] if case["weights"] and case["kind"] == "containers" else [])
         if case["kind"] == "nonfinite":
             t += [f"container:{k}" for k in forms]
+        elif case["kind"] == "eltype":
+            t += [f"container:{k}" for k in forms]
+            t += [f"eltype:refused:{k}" for k in ("array", "fill_n_array", "array2") if o["results"].get(k) == "REFUSED"]
+            t += sorted({f"eltype:contents_dtype:{case['wtype']}->{p['got']['dtype']}" for p in o["pairs"].values()
+                         if p["wnarrow"] and isinstance(p["got"], dict)})
         elif case["kind"] == "wshape":
             t += sorted({f"container:{k.split('.')[0]}" for k in o["wpairs"]})
             t += sorted({f"wshape:{k}:{'refused' if g['ref'] == 'REFUSED' else 'accepted'}" for k, g in o["wrefs"].items()})
@@ -2495,10 +2971,30 @@ class C17:
         c["tags"] = self._wshape_tags(c)
         return c
 
+    def _as_eltype(self, case, ctype="float32"):
+        """the 1-D data of a case rounded to a narrow floating type (the values of the new case ARE the rounded ones), over the same
+        explicit bins"""
+        dt = np.dtype(ctype).type
+        xs = [None if r[0] is None or is_infinite(r[0]) or not np.isfinite(dt(r[0])) else float(dt(r[0])) for r in case["data"]]
+        n = len(xs)
+        c = {"kind": "eltype", "d": 1, "binning": copy.deepcopy(case["binning"][:1]), "spec": {"m": "explicit"}, "ctype": ctype,
+             "wtype": "float32", "data": [[v] for v in xs], "y": [float(i % 5) for i in range(n)], "weights": [float(1 + i % 4) for i in range(n)],
+             "wkind": "float64", "k2": 3, "names": ["col0"], "dropna": True, "extra": {"chunk": 2}, "open": list(case.get("open", []))}
+        c["tags"] = self._eltype_tags(c)
+        return c
+
     def neighbours(self, case):
         """the same data under other labels (a 'containers' case: as a labelled one), with non-finite entries, with the weights in
-        other shapes"""
+        other shapes, in single precision; an 'eltype' case: on ten bins, with the other narrow floating type"""
         out = []
+        if case.get("kind") == "eltype":
+            c = copy.deepcopy(case)
+            c["binning"], c["spec"] = None, {"m": "int", "k": 10}
+            c["tags"] = self._eltype_tags(c)
+            return [c]
+        if ENABLE_ELTYPE and case.get("kind") == "containers" and case["d"] == 1 and 2 <= len(case["data"]) <= 40 \
+                and case["binning"][0].get("t") == "static":
+            out.append(self._as_eltype(case))
         if case.get("kind") in ("containers", "labelled", "nonfinite") and 2 <= len(case["data"]) <= 40:
             if ENABLE_NONFINITE:
                 out += [self._as_nonfinite(case, f) for f in ("both", "pinf", "inf_nan", "huge")]
@@ -2523,6 +3019,26 @@ class C17:
         return out
 
     def shrink_candidates(self, case):
+        if case["kind"] == "eltype":
+            # fewer values (each with its y and its weight), no weights, plain weights
+            n = len(case["data"])
+            for j in range(n):
+                if n <= 2:
+                    break
+                c = copy.deepcopy(case)
+                del c["data"][j]
+                del c["y"][j]
+                if c["weights"] is not None:
+                    del c["weights"][j]
+                c["extra"]["chunk"] = max(1, min(c["extra"]["chunk"], n - 1))
+                c["tags"] = self._eltype_tags(c)
+                yield c
+            if case["weights"] is not None:
+                c = copy.deepcopy(case)
+                c["weights"], c["wkind"], c["wtype"] = None, None, None
+                c["tags"] = self._eltype_tags(c)
+                yield c
+            return
         if case["kind"] == "labelled":
             # fewer rows (each with its weight, its two labels and its filter flag), plain dtypes, plainer labels
             n = len(case["data"])
